@@ -410,10 +410,12 @@ impl<S: Storage> Replica<S> {
         server: &mut Box<dyn Server>,
         avoid_snapshots: bool,
     ) -> Result<()> {
-        self.taskdb
-            .sync(server, avoid_snapshots)
-            .await
-            .context("Failed to synchronize with server")?;
+        let res = self.taskdb.sync(server, avoid_snapshots).await;
+        // The sync may have applied changes made on other replicas: the cached dependency map
+        // may now be invalid, do not retain it. Any existing Task values will continue to use
+        // the old map.
+        self.depmap = None;
+        res.context("Failed to synchronize with server")?;
         self.rebuild_working_set(false)
             .await
             .context("Failed to rebuild working set after sync")?;
